@@ -2,7 +2,10 @@
 """Regenerates MANIFEST.json from checks.json (single source of truth for the registered checks)."""
 import json, os
 ROOT = os.path.dirname(os.path.abspath(__file__))
-cfg = json.load(open(os.path.join(ROOT, "checks.json")))
+import glob
+cfg = {}
+for path in sorted(glob.glob(os.path.join(ROOT, "checks.d", "*.json"))):
+    cfg.update(json.load(open(path)))
 props = [json.loads(l) for l in open(os.path.join(ROOT, "properties.jsonl"))]
 checks, na = [], []
 for p in props:
